@@ -11,7 +11,10 @@ import (
 	"fmt"
 	"os"
 	"path/filepath"
+	"runtime"
+	"strings"
 	"sync"
+	"sync/atomic"
 	"testing"
 	"time"
 
@@ -585,6 +588,147 @@ func genC20(t *rapid.T) c20Case {
 
 var kC20 = register(&Kind[c20Case]{Prop: "C20", Name: "program", Gen: genC20, Eval: evalC20})
 
+// ---- kind: lockstep rounds ----------------------------------------------------------------------
+// Load-state bugs show as a disagreement between what IsLoaded says and what is loaded, and only when
+// two state changes overlap within a few dozen nanoseconds.  Instead of starting goroutines per sample,
+// G workers stay alive and run in rounds: a spinning barrier releases them together, each performs ONE
+// operation, and in the quiet state after the round the views are compared.  One round costs about a
+// microsecond, so a case samples tens of thousands of overlaps.
+
+type c20Lock struct {
+	Patterns [][]string `json:"patterns"` // per worker: its operations, cycled; reload | unload | isloaded | add | matches
+	Rounds   int        `json:"rounds"`
+	Len      int        `json:"len"`
+	K        uint32     `json:"k"`
+}
+
+func evalC20Lock(c c20Lock, o *Obs) error {
+	g := len(c.Patterns)
+	if g < 2 || g > 8 || c.Rounds < 1 || c.Rounds > 2000000 || c.Len < 1 || c.Len > 4096 || c.K > 50 {
+		return hbug("bad lockstep case")
+	}
+	for _, p := range c.Patterns {
+		if len(p) == 0 {
+			return hbug("empty pattern")
+		}
+	}
+	if outDir != "" {
+		js, _ := json.Marshal(map[string]any{"property": "C20", "kind": "lockstep", "case": c})
+		os.WriteFile(filepath.Join(outDir, "current-case.json"), js, 0o644)
+	}
+	if os.Getenv("VERIF_REPLAY") != "" && c.Rounds < 400000 {
+		c.Rounds = 400000
+	}
+	o.NT()
+	o.Class("C20:lockstep-rounds")
+	f := bloom.LoadFilter(nil)
+	item := []byte("lockstep item")
+	var round, arrived atomic.Int64
+	var stop atomic.Bool
+	msgs := make([]*wire.MsgFilterLoad, g) // the message worker i loaded in the current round (nil if it did not)
+	var wg sync.WaitGroup
+	for w := 0; w < g; w++ {
+		w := w
+		wg.Add(1)
+		go func() {
+			defer wg.Done()
+			for r := int64(1); ; r++ {
+				for spins := 0; round.Load() < r; spins++ {
+					if stop.Load() {
+						return
+					}
+					if spins%64 == 63 {
+						runtime.Gosched()
+					}
+				}
+				msgs[w] = nil
+				switch c.Patterns[w][int(r)%len(c.Patterns[w])] {
+				case "reload":
+					m := wire.NewMsgFilterLoad(make([]byte, c.Len), c.K, uint32(r), wire.BloomUpdateAll)
+					msgs[w] = m
+					f.Reload(m)
+				case "unload":
+					f.Unload()
+				case "isloaded":
+					f.IsLoaded()
+				case "add":
+					f.Add(item)
+				case "matches":
+					f.Matches(item)
+				}
+				arrived.Add(1)
+			}
+		}()
+	}
+	var failure error
+	for r := int64(1); r <= int64(c.Rounds); r++ {
+		arrived.Store(0)
+		round.Store(r)
+		for spins := 0; arrived.Load() < int64(g); spins++ {
+			if spins%64 == 63 {
+				runtime.Gosched()
+			}
+		}
+		// quiet state: every worker has returned from its call of this round
+		loaded, msg := f.IsLoaded(), f.MsgFilterLoad()
+		if loaded != (msg != nil) {
+			failure = fmt.Errorf("after round %d (%s) nothing is running and IsLoaded() = %v while MsgFilterLoad() returns nil=%v: the two views of the load state disagree",
+				r, c20RoundOps(c, r), loaded, msg == nil)
+			break
+		}
+		nReload, nUnload := 0, 0
+		for w := 0; w < g; w++ {
+			switch c.Patterns[w][int(r)%len(c.Patterns[w])] {
+			case "reload":
+				nReload++
+			case "unload":
+				nUnload++
+			}
+		}
+		if nReload > 0 && nUnload == 0 {
+			mine := false
+			for _, m := range msgs {
+				if m != nil && msg != nil && m.Tweak == msg.Tweak {
+					mine = true
+				}
+			}
+			if !mine {
+				failure = fmt.Errorf("after round %d (%s) the filter holds none of the messages loaded in that round (loaded=%v)", r, c20RoundOps(c, r), loaded)
+				break
+			}
+		}
+		if nUnload > 0 && nReload == 0 && loaded {
+			failure = fmt.Errorf("after round %d (%s) a filter is still loaded", r, c20RoundOps(c, r))
+			break
+		}
+	}
+	stop.Store(true)
+	wg.Wait()
+	return failure
+}
+
+func c20RoundOps(c c20Lock, r int64) string {
+	var ops []string
+	for w := range c.Patterns {
+		ops = append(ops, c.Patterns[w][int(r)%len(c.Patterns[w])])
+	}
+	return strings.Join(ops, " || ")
+}
+
+var kC20Lock = register(&Kind[c20Lock]{Prop: "C20", Name: "lockstep", Eval: evalC20Lock,
+	Gen: func(t *rapid.T) c20Lock {
+		c := c20Lock{Rounds: pick(30000, 400000), Len: rapid.IntRange(1, 64).Draw(t, "len"), K: uint32(rapid.IntRange(1, 5).Draw(t, "k"))}
+		g := rapid.SampledFrom([]int{2, 2, 3, 4}).Draw(t, "g")
+		for w := 0; w < g; w++ {
+			var p []string
+			for i := rapid.IntRange(1, 7).Draw(t, "plen"); i > 0; i-- {
+				p = append(p, rapid.SampledFrom([]string{"reload", "reload", "unload", "unload", "isloaded", "add", "matches"}).Draw(t, "op"))
+			}
+			c.Patterns = append(c.Patterns, p)
+		}
+		return c
+	}})
+
 // ---- GCS: immutable, concurrent queries ------------------------------------------------------
 
 type c20GCS struct {
@@ -730,6 +874,7 @@ func TestC20(t *testing.T) {
 		}
 		kC20.Run(t, ev, perShard(pick(300, 12000)))
 		kC20GCS.Run(t, ev, perShard(pick(60, 6000)))
+		kC20Lock.Run(t, ev, perShard(pick(24, 800)))
 		ev.requireClasses("C20:overlapping-calls-observed", "C20:linearizable", "C20:with-reload-or-unload", "C20:with-matchtx",
 			"C20:goroutines=32", "C20:gcs-concurrent-queries", "C20:cold-message-invariant-checked")
 	})
